@@ -85,6 +85,25 @@ func analyseInject(c *Ctx, rule string) *injectShape {
 			}
 		}
 	}
+	// `d, ok := c.devices[x]; ok && d != nil`: the comma-ok edge only leads to the nil test
+	// of the same lookup, which decides
+	var hits []ir.Edge
+	for _, e := range s.hitEdges {
+		decidedLater := false
+		if ex, ok := e.From.Instrs[len(e.From.Instrs)-1].(*ssa.If).Cond.(*ssa.Extract); ok && ex.Index == 1 {
+			for _, iff := range ir.Ifs(fn) {
+				if tv, _, ok := ir.NilTest(iff); ok && iff.Block() == e.From.Succs[e.Succ] {
+					if ex0, ok := tv.(*ssa.Extract); ok && ex0.Tuple == ex.Tuple && ex0.Index == 0 {
+						decidedLater = true
+					}
+				}
+			}
+		}
+		if !decidedLater {
+			hits = append(hits, e)
+		}
+	}
+	s.hitEdges = hits
 	if len(s.missEdges) == 0 {
 		c.R.Undecided(rule, "anchor:lookup-miss", c.U.Pos(fn.Pos()), "no nil / comma-ok test of a lookup in c.devices found in InjectDevices: the resolution idiom changed")
 		return nil
